@@ -36,7 +36,8 @@ R4 stateful steps restore their state: ScatterStep / LoopCombinatorStep / Defaul
    (seeded change C16b-2: a counter parsed from the prefix re-numbers the resumed iterations);
    ScatterStep installs a FilterTokenPort); `restore` is given the
    *unavailable* tokens while `_inject_tokens` injects the *available* ones (the selection is a comprehension
-   filter or the dominating test of the `append` of the equivalent loop; conditional expression or if statement);
+   filter or the dominating test of the `append` of the equivalent loop; conditional expression or if statement;
+   `mapper.token_availability` / `mapper.port_tokens` read directly or through a local bound once to that attribute);
    `_inject_tokens`
    installs a PROPAGATE rule towards the failed step's original output port and a TERMINATE rule on
    the recovery port, both keyed by the failed job's tag, always together and exactly for the
